@@ -29,6 +29,9 @@ type C16Case struct {
 	Midi  [][]byte    `json:"midi"`  // MIDI-in traffic fed to the fan-out while the devices run
 	Phase []string    `json:"phase"` // per device: when its event stream ends
 	Delay []int       `json:"delay"` // per device: extra delay in ms used by the phase
+	// NoServer: no OpenRGB server is reachable, every LED goroutine stays in its connect/retry phase. Device 0 stays
+	// connected for 1.6 s; the others end early and must not have to wait for it.
+	NoServer bool `json:"no_server,omitempty"`
 }
 
 var raceLogOffsets = map[string]int64{}
@@ -120,7 +123,12 @@ func checkC16(c C16Case) (nontrivial bool, v *Violation) {
 	if err != nil {
 		return false, violation("C16", "harness", "", "fake OpenRGB server: %v", err)
 	}
-	defer srv.Close()
+	port := srv.Port
+	if c.NoServer {
+		srv.Close() // the port stays closed: connection refused, the LED goroutines keep retrying
+	} else {
+		defer srv.Close()
+	}
 	cfg, _, pv := parseDesc("C16", c.D)
 	if pv != nil {
 		return false, pv
@@ -170,9 +178,19 @@ func checkC16(c C16Case) (nontrivial bool, v *Violation) {
 				res[i].problem = violation("C16", "harness", "", "SpawnOutput: %v", err)
 				return
 			}
-			ld := startLedDeviceRO(shared, c.D, events[i], i, srv.Port, ch)
+			ld := startLedDeviceRO(shared, c.D, events[i], i, port, ch)
 			phase := c.Phase[i]
+			if c.NoServer {
+				phase = "no-server-early"
+				if i == 0 {
+					phase = "no-server-long"
+				}
+			}
 			switch phase {
+			case "no-server-early":
+				time.Sleep(time.Duration(c.Delay[i]%300) * time.Millisecond)
+			case "no-server-long":
+				time.Sleep(50 * time.Millisecond)
 			case "before-connect":
 				time.Sleep(time.Duration(c.Delay[i]%200) * time.Millisecond)
 			case "during-discovery":
@@ -198,6 +216,9 @@ func checkC16(c C16Case) (nontrivial bool, v *Violation) {
 			res[i].heldAtCut = len(m.perKey) > 0
 			if phase == "running" {
 				time.Sleep(time.Duration(c.Delay[i]%40) * time.Millisecond)
+			}
+			if phase == "no-server-long" {
+				time.Sleep(1600 * time.Millisecond)
 			}
 			t0 := time.Now()
 			close(ld.in)
@@ -233,13 +254,23 @@ func checkC16(c C16Case) (nontrivial bool, v *Violation) {
 	}
 	// (2) prompt termination
 	for i := range res {
+		if c.NoServer && res[i].returnedIn > time.Second {
+			return true, violation("C16", "no-prompt-termination", "connect-phase", "device %d of %d (no OpenRGB server reachable, LED goroutines still in their connect phase): ProcessEvents needed %v to return after its event stream ended", i, n, res[i].returnedIn)
+		}
 		if res[i].returnedIn > 3*time.Second {
 			return true, violation("C16", "no-prompt-termination", c.Phase[i], "device %d (%s): ProcessEvents needed %v to return after its event stream ended", i, c.Phase[i], res[i].returnedIn)
 		}
 		if res[i].framesSeen && res[i].heldAtCut {
 			nontrivial = true
 		}
-		classify("phase " + c.Phase[i])
+		if c.NoServer {
+			classify("no server reachable")
+			if n > 1 {
+				nontrivial = true
+			}
+		} else {
+			classify("phase " + c.Phase[i])
+		}
 	}
 	// (3) nothing of the device package keeps running
 	deadline := time.Now().Add(3 * time.Second)
@@ -317,6 +348,7 @@ func genC16(t *rapid.T) C16Case {
 		c.Phase = append(c.Phase, rapid.SampledFrom([]string{"before-connect", "during-discovery", "running", "running", "between-frames", "after-key", "after-key"}).Draw(t, "phase"))
 		c.Delay = append(c.Delay, rapid.IntRange(0, 1000).Draw(t, "delay"))
 	}
+	c.NoServer = rapid.IntRange(0, 6).Draw(t, "noServer") == 0
 	for i := rapid.IntRange(0, 12).Draw(t, "midiMsgs"); i > 0; i-- {
 		st := byte(0x90)
 		if rapid.Bool().Draw(t, "off") {
